@@ -226,6 +226,46 @@ CLAIMS.update({
         ref='DESIGN.md §5 C13'),
 })
 
+CLAIMS.update({
+    'C14': dict(
+        category='proof',
+        technique='Lean 4 theorems over a filesystem model of read_lines (include_is_splice, include_same_result, cwd_irrelevant, assemble_ignores_line_metadata) + seeded include trees run through the real assemble()/CLI from several working directories against a harness-spliced single file',
+        text=('Theorems: an `include F` line contributes exactly the lines read_lines returns for the file the search finds (-i directories '
+              'in order, then the including file\'s directory), read relative to that file\'s own directory, recursively to any depth '
+              '(include_is_splice); for an include-free F the including text and the text with F\'s lines in place read to the same line '
+              'contents (include_textual_splice); lexer, parser and every pass use a Line only through its contents '
+              '(assemble_ignores_line_metadata, parseItem_mapLine; all passes covered), so both texts give the same bytes, labels and '
+              'constants or both fail (include_same_result); assembling an absolute path with absolute -i directories never consults the '
+              'cwd (cwd_irrelevant). Tie and search: 700 / 12000 seeded include trees per run (depth 0-4, include first/middle/last/only '
+              'line, sibling / sub / parent / absolute / -i directories, shadow files of the same name where only the search order or the '
+              'included file\'s directory decides, include_bytes at every depth, quoted / commented / upper-case forms, cross-file labels and '
+              'constants, ~10% failing trees) are materialised in a temp dir and assembled by the real code from 5 working directories (one '
+              'full of same-name same-size decoys) with absolute and relative main paths, both modes, and through the CLI with relative and '
+              'absolute -i; bytes, ordered label table and constants must be equal everywhere and equal to the harness-spliced single '
+              'source; the Lean model (asmfs) must reply the same on the same filesystem.'),
+        note=TB + ' Filesystem = absolute normalised POSIX paths; .. / non-normalised paths, symlinks, non-ASCII names or contents and include cycles (real code: RecursionError) are outside the model (counted, still covered by the oracle). The search order is the code\'s choice; the oracle splices with it. OS behaviour of os.path/open trusted.',
+        ref='DESIGN.md §5 C14'),
+    'C17': dict(
+        category='proof',
+        technique='Lean 4 theorems over a model of cli_main (plan / writeOutputs) with bin2hex as a parameter + Intel HEX specification decoder with proved round trip + the real entry point in subprocesses with sentinel files and failures planted in every pass',
+        text=('Theorems: every exit before the first write (missing input, invalid -i directory, invalid --hex-offset, any assemble '
+              'failure, an offset Intel HEX cannot hold) leaves the filesystem untouched with a non-zero status (plan_error_untouched, '
+              'plan_error_ne0, bad_offset_exits, out_of_range_offset_exits); a run that gets as far as writing has 0 <= offset and offset + '
+              'size <= 2^32 (plan_offset_in_range), so under the stated assumption on bin2hex (HexOk: it does not raise for images Intel HEX '
+              'can hold) EVERY failing run leaves the filesystem unchanged (cli_failure_untouched_range; cli_failure_untouched_hex: the only '
+              'way to change it while failing would be bin2hex raising); on success exit 0, -o = the assembled bytes, -l = one '
+              '`name 0x%08x` line per label in table order, .hex = bin2hex\'s output, all other paths unchanged (cli_success_files, '
+              'labelText_lines), and the .hex file decodes under the specification decoder to the bytes at the offset '
+              '(cli_success_hex_decodes); Hex.decode (Hex.encode off bs) = (off, bs) for all off + |bs| <= 2^32 (hex_roundtrip), so the '
+              'assumption is satisfiable (hexOk_encode). Tie and search: 1600 / 24000 runs of `python -m bronzebeard.asm` per check run in '
+              'temp dirs: generated programs x (-c, -v, -i rel/abs, -o default/rel/subdir/abs, -l, --hex-offset valid / invalid / out of '
+              'range, --include-definitions), -o/-l/.hex pre-existing with sentinels, a planted fault for every pass and option check; exit 0 '
+              '=> files exactly as computed in-process and the real .hex decoded by the Lean decoder = (offset, bytes), exit != 0 => no '
+              'file changed or created; the Lean Cli.run must give the same exit class and written files.'),
+        note=TB + ' argparse not modelled (model starts from the namespace); intelhex.bin2hex is third-party: a parameter in the theorems (assumption stated as hypothesis HexOk), its real output checked by decoding; OS write failures (unwritable paths) outside the claim.',
+        ref='DESIGN.md §5 C17'),
+})
+
 PENDING_REASON = 'check not built yet (work in progress; see DESIGN.md section 5 for the plan)'
 
 
